@@ -411,7 +411,20 @@ func c04Gen(rt *rapid.T) wProg {
 			}
 			p.Ops = append(p.Ops, wOp{K: "leave", S: s, T: ref, F: unsub})
 			if c04Pct(rt, 75) {
-				p.Ops = append(p.Ops, wOp{K: "sub", S: s, T: ref})
+				sub := wOp{K: "sub", S: s, T: ref}
+				if c04Pct(rt, 45) {
+					// a combined {sub get="data del"}: history and deletion log with options of their own
+					last := cnt[topicKey(ref)]
+					sub.B = c04Pick(rt, []string{"data", "del", "data del", "data del", "desc data del"}, "subget")
+					sub.G = map[string][3]int{}
+					if c04Pct(rt, 70) {
+						sub.G["data"] = [3]int{c04Pick(rt, []int{0, 0, 1, 2, 3, last - 1, last}, "since"), c04Pick(rt, []int{0, 0, 2, 3, last, last + 1}, "before"), c04Pick(rt, []int{0, 0, 1, 2, 5, 100}, "limit")}
+					}
+					if c04Pct(rt, 40) && !isGrpc(s) {
+						sub.G["del"] = [3]int{c04Pick(rt, []int{0, 0, 1, 2, 3, 50}, "dsince"), c04Pick(rt, []int{0, 0, 2, 3, 4, 50}, "dbefore"), c04Pick(rt, []int{0, 0, 1, 2, 50}, "dlimit")}
+					}
+				}
+				p.Ops = append(p.Ops, sub)
 			}
 		case x < 93:
 			p.Ops = append(p.Ops, wOp{K: "sub", S: s, T: ref})
@@ -704,6 +717,44 @@ func (o *c04Obs) After(w *wWorld, st *wStep) *kit.Viol {
 			if tp := o.topics[st.Route]; tp != nil && st.ok() {
 				delete(tp.left, st.User)
 			}
+			// the get part of a combined {sub}: judged like the same {get} from the now attached session
+			if _, was := o.preAtt[st.Sess][st.Route]; !was && st.ok() && st.Op.B != "" && st.Op.Obo == 0 && st.NewGrp < 0 {
+				tmp := newWAttach()
+				for s, m := range o.att.att {
+					tmp.att[s] = map[string]wAtt{}
+					for r, a := range m {
+						tmp.att[s][r] = a
+					}
+				}
+				tmp.update(w, st)
+				if at, now := tmp.get(st.Sess, st.Route); now {
+					if o.preAtt[st.Sess] == nil {
+						o.preAtt[st.Sess] = map[string]wAtt{}
+					}
+					o.preAtt[st.Sess][st.Route] = at
+					// the permissions the get part is served with are those the subscription has just set
+					savedPre, savedLive := o.pre, o.preLive
+					o.pre, o.preLive = post, w.liveTopics()
+					o.classes["sub-with-get"] = true
+					var v *kit.Viol
+					for _, what := range strings.Fields(st.Op.B) {
+						switch what {
+						case "data":
+							v = o.judgeGetData(w, st)
+						case "del":
+							v = o.judgeGetDel(w, st)
+						}
+						if v != nil {
+							break
+						}
+					}
+					delete(o.preAtt[st.Sess], st.Route)
+					o.pre, o.preLive = savedPre, savedLive
+					if v != nil {
+						return v
+					}
+				}
+			}
 		case "del":
 			switch st.Op.A {
 			case "sub":
@@ -916,7 +967,7 @@ func (o *c04Obs) judgeGetData(w *wWorld, st *wStep) *kit.Viol {
 		o.classes["get-without-R"] = true
 		return nil
 	}
-	since, before, limit := st.Op.N, st.Op.M, st.Op.L
+	since, before, limit := wOptsOf(&st.Op, "data")
 	want := tp.answer(u, since, before, limit)
 	all := tp.eligible(u, since, before, 1<<30)
 	wantSet := map[int]bool{}
@@ -1070,7 +1121,7 @@ func (o *c04Obs) judgeGetDel(w *wWorld, st *wStep) *kit.Viol {
 	if tp.reinvited[u] {
 		pfx = "p2p-reinvited:"
 	}
-	since, before, limit := st.Op.N, st.Op.M, st.Op.L
+	since, before, limit := wOptsOf(&st.Op, "del")
 	expect := map[int]bool{}
 	rows := 0
 	for _, tx := range tp.log {
